@@ -60,33 +60,40 @@ def subOK (ro : Rollout) (s : Sub) (w : CWl) : Bool :=
   decide (1 ≤ s.curIdx ∧ s.curIdx ≤ n) && decide (s.nextIdx = nextBatchIndex n s.curIdx) && s.lastUpdate != .none &&
   s.hash == .same && s.canaryRev == w.updateRevision && s.finStep == .empty
 
+def brOKo (br : Option CBr) : Bool := match br with | some b => brOK b | none => true
+
+def linkOKo (ro : Rollout) (s : Sub) (br : Option CBr) : Bool := match br with | some b => linkOK ro s b | none => true
+
+/-- **C01.5** — the CloneSet carries a partition, and it exposes at most what the step the rollout is on allows -/
+def withinCur (ro : Rollout) (s : Sub) (w : CWl) : Bool :=
+  match w.partition, (planOf ro)[(s.curIdx - 1).toNat]? with
+  | some k, some e => within w.replicas (planOf ro) e k
+  | _, _ => false
+
+/-- the part of the invariant that depends on where the rollout is -/
+def phaseInv (s : CS) (w : CWl) : Bool :=
+  match s.ro.phase, s.ro.reason with
+  | .healthy, _ => s.br.isNone && (!w.inProgressAnno || held w)
+  | .progressing, .initializing => s.br.isNone && held w
+  | .progressing, .inRolling =>
+    (match s.ro.sub with
+     | none => false
+     | some sub => subOK s.ro sub w && linkOKo s.ro sub s.br && withinCur s.ro sub w)
+  | .progressing, .finalising =>
+    (match s.ro.sub with
+     | none => false
+     | some sub =>
+       RV.Oracle.Cluster.cursorOk (taskList s.ro.style .success) sub.finStep &&
+       RV.Oracle.Cluster.finInv .success s.ro sub.finStep (s.br.map roBr) s.net)
+  | .progressing, .completed => s.br.isNone && !w.inProgressAnno
+  | _, _ => false
+
 /-- the invariant of a forward rollout (labels ro / br / env / approve / tick / crash, and a new release while idle) -/
 def fwdInv (s : CS) : Bool :=
   roOK s &&
   (match s.wl with
    | none => false
-   | some w =>
-     wlOK w && planMono w.replicas (planOf s.ro) && (match s.br with | some b => brOK b | none => true) &&
-     (match s.ro.phase, s.ro.reason with
-      | .healthy, _ => s.br.isNone && (!w.inProgressAnno || held w)
-      | .progressing, .initializing => s.br.isNone && held w
-      | .progressing, .inRolling =>
-        (match s.ro.sub with
-         | none => false
-         | some sub =>
-           subOK s.ro sub w &&
-           (match s.br with | some b => linkOK s.ro sub b | none => true) &&
-           (match w.partition, (planOf s.ro)[(sub.curIdx - 1).toNat]? with
-            | some k, some e => within w.replicas (planOf s.ro) e k
-            | _, _ => false))
-      | .progressing, .finalising =>
-        (match s.ro.sub with
-         | none => false
-         | some sub =>
-           RV.Oracle.Cluster.cursorOk (taskList s.ro.style .success) sub.finStep &&
-           RV.Oracle.Cluster.finInv .success s.ro sub.finStep (s.br.map roBr) s.net)
-      | .progressing, .completed => s.br.isNone && !w.inProgressAnno
-      | _, _ => false))
+   | some w => wlOK w && planMono w.replicas (planOf s.ro) && brOKo s.br && phaseInv s w)
 
 /-- the CloneSet knobs the rollout world does not carry -/
 def wlx (w : CWl) : RV.Oracle.Cluster.WlX :=
